@@ -80,7 +80,14 @@ def _run_group_kill(cmd, cwd, env, timeout):
     """subprocess.run(capture_output, text) in its own process group; on timeout the whole group (cargo, kani-driver,
     cbmc) is killed so no orphan solver keeps burning memory."""
     import signal
-    proc = subprocess.Popen(cmd, cwd=cwd, env=env, stdout=subprocess.PIPE, stderr=subprocess.PIPE, text=True, start_new_session=True)
+    def _limits():
+        # address-space ceiling per process (cbmc has reached 44 GB on this 62 GB / no-swap machine): a solver that
+        # needs more dies with an allocation failure, which is reported as a tool error, never as a verdict
+        import resource
+        lim = int(os.environ.get('VERIF_KANI_AS_GB', '30')) << 30
+        resource.setrlimit(resource.RLIMIT_AS, (lim, lim))
+    proc = subprocess.Popen(cmd, cwd=cwd, env=env, stdout=subprocess.PIPE, stderr=subprocess.PIPE, text=True, start_new_session=True,
+                            preexec_fn=_limits)
     try:
         out, err = proc.communicate(timeout=timeout)
     except subprocess.TimeoutExpired:
